@@ -364,3 +364,66 @@ R.contract(
 )
 R.spec_funcs["same_b"] = lambda it, a, b: __import__("pyvc.ops", fromlist=["eq"]).eq(a, b)
 
+
+# ------------------------------------------------------------------------------------------------- into_event_stream: loading errors and engine crashes become FatalError events; the CLI filters reach the schema
+RUNEV = "schemathesis.cli.commands.run.events:"
+R.exception_classes["LoaderError"] = "schemathesis.core.errors:LoaderError"
+R.contract("schemathesis.cli.commands.run.loaders:AutodetectConfig", abstract_only=True, args={}, returns=Opq("LoaderConfigRef"), note="dataclass constructor")
+
+
+def _loaded_schema(it, env):
+    from pyvc.values import VObj
+
+    sch = VObj(it.resolve_class("spec:LoadedSchema"), {"filter_set": fresh_opaque(it, "DefaultFilterSet"), "specification": fresh_opaque(it, "Specification"), "statistic": fresh_opaque(it, "ApiStatistic"),
+                                                      "raw_schema": fresh_opaque(it, "RawSchema"), "base_path": "/"})
+    it.ghost["schema"] = sch
+    return sch
+
+
+R.contract("schemathesis.cli.commands.run.loaders:load_schema", args={"config": Opq("Any")}, returns=_loaded_schema, raises=["LoaderError", "KeyboardInterrupt"], trusted=True,
+           effects={"load_outcome": "raised"}, note="loads the API schema from a URL or file (network / parsing errors: LoaderError)")
+R.nominal_methods["spec:LoadedSchema"] = {"get_base_url": lambda it, obj, a, k: "http://127.0.0.1/"}
+
+
+def _engine_of(it, env):
+    from pyvc.values import VObj
+
+    it.ghost["engine_args"] = (env["schema"], env.get("config"))
+    return VObj(it.resolve_class("spec:BuiltEngine"), {})
+
+
+def _engine_events(it, obj, a, k):
+    from pyvc.values import VGen
+
+    evs = [fresh_opaque(it, "EngineEvent") for _ in range(it.path.choose([(0, True), (1, True), (2, True)], "n-engine-events"))]
+    it.ghost["engine_events"] = evs
+    crash = it.path.choose([(False, True), (True, True)], "engine-crashes")
+    it.ghost["engine_crashed"] = crash
+    return VGen(evs, exc=__import__("pyvc.interp", fromlist=["PyExc"]).PyExc(it.make_exc(it.resolve_exc_class("RuntimeError", None), ())) if crash else None)
+
+
+R.nominal_methods["spec:BuiltEngine"] = {"execute": _engine_events}
+R.contract("schemathesis.engine:from_schema", args={"schema": Opq("Any"), "config": Opq("Any")}, returns=_engine_of, trusted=True, note="Engine(schema, config) (C11 contracts)")
+R.contract(
+    EXE + "into_event_stream",
+    prop="C05",
+    args={"config": Obj("spec:RunConfig2", location=Str, base_url=Opt(Str), filter_set=Opq("CliFilterSet"), wait_for_schema=NoneT, rate_limit=NoneT, output=Opq("OutputConfig"),
+                        engine=Obj("spec:EngCfg2", network=Opq("Network"), execution=Obj("spec:ExecCfg2", generation=Opq("Generation"))))},
+    ghost={"load_outcome": None, "schema": None, "engine_args": None, "engine_events": None, "engine_crashed": False},
+    raises=[],
+    ensures={
+        "loading_is_announced_first": "is_instance(result[0], 'LoadingStarted')",
+        # an error while loading the schema or ANY crash of the engine reaches the report as a FatalError event (exit code: on_event contract) - never an escaping exception, never silence
+        "a_loader_error_becomes_a_fatal_error_event": "implies(ghost('load_outcome') == 'LoaderError', length(result) == 2 and is_instance(result[1], 'FatalError'))",
+        "an_engine_crash_becomes_a_fatal_error_event_after_what_was_already_emitted": "implies(ghost('engine_crashed'), is_instance(result[-1], 'FatalError') and length(result) == 3 + length(ghost('engine_events')))",
+        "ctrl_c_while_loading_is_reported_as_interrupted": "implies(ghost('load_outcome') == 'KeyboardInterrupt', length(result) == 2 and is_instance(result[1], 'Interrupted'))",
+        # every engine event is forwarded unchanged, in order, after LoadingFinished
+        "engine_events_forwarded_unchanged_in_order": "implies(ghost('load_outcome') is None, is_instance(result[1], 'LoadingFinished') and "
+                                                      "all(result[2 + i] is ghost('engine_events')[i] for i in range(length(ghost('engine_events')))))",
+        # C07: the filters given on the command line are the schema's filters before the engine is built on it
+        "C07_cli_filters_are_installed_on_the_loaded_schema": "implies(ghost('load_outcome') is None, ghost('schema').filter_set is config.filter_set and ghost('engine_args')[0] is ghost('schema') and ghost('engine_args')[1] is config.engine)",
+    },
+    bounded_note="up to 2 engine events",
+    replayable=False,
+)
+
